@@ -1,6 +1,7 @@
 import Csproto.Bridge.WireFuncs2
 import Csproto.Model.Enc
 import Csproto.Proofs.Enc
+import Csproto.Proofs.Wire
 /-
   Bridge for the TRANSLATED `Encoder` methods (fourth batch): `(*Encoder).EncodeUInt64`, `EncodeUInt32`, `EncodeInt64`,
   `EncodeInt32`, `EncodeSInt32`, `EncodeSInt64` of `/repo`'s current encoder.go, translated statement by statement
@@ -489,5 +490,129 @@ theorem EncodeRaw_refines (fuel : Nat) (p : Bytes) (off : BitVec 64) (d : Bytes)
       simp only [hle, if_true, EncOut.ofRes, copyAt_eq]
       exact ⟨_, rfl, rfl, hadv⟩
     · simp only [hle, if_false, EncOut.ofRes]
+
+/-! ### fixed-width writers: `binary.LittleEndian.PutUint32/64` rendered as `Go.putLE` (trusted rendering of encoding/binary) -/
+
+theorem leB_eq : ∀ (k v : Nat), Go.leB k v = leBytes k v
+  | 0, _ => rfl
+  | k + 1, v => by simp [Go.leB, leBytes, leB_eq k]
+
+theorem EncodeFixed32_ok (fuel : Nat) (dest : Bytes) (v : BitVec 32) (hd : (encFixed32 v.toNat).length ≤ dest.length) :
+    ∃ s', EncodeFixed32 fuel dest v = .ret (BitVec.ofNat 64 (encFixed32 v.toNat).length) s' ∧
+      s'.dest = encFixed32 v.toNat ++ dest.drop (encFixed32 v.toNat).length := by
+  have h4 : (encFixed32 v.toNat).length = 4 := by simp [encFixed32]
+  rw [h4] at hd ⊢
+  unfold EncodeFixed32 EncodeFixed32.body
+  simp only [Go.seq, hd, if_true]
+  exact ⟨_, rfl, by simp [Go.putLE, leB_eq, encFixed32]⟩
+
+theorem EncodeFixed32_short (fuel : Nat) (dest : Bytes) (v : BitVec 32) (hd : dest.length < (encFixed32 v.toNat).length) :
+    EncodeFixed32 fuel dest v = .panic := by
+  have h4 : (encFixed32 v.toNat).length = 4 := by simp [encFixed32]
+  rw [h4] at hd
+  have : ¬ 4 ≤ dest.length := by omega
+  unfold EncodeFixed32 EncodeFixed32.body
+  simp [Go.seq, this]
+
+theorem EncodeFixed64_ok (fuel : Nat) (dest : Bytes) (v : BitVec 64) (hd : (encFixed64 v.toNat).length ≤ dest.length) :
+    ∃ s', EncodeFixed64 fuel dest v = .ret (BitVec.ofNat 64 (encFixed64 v.toNat).length) s' ∧
+      s'.dest = encFixed64 v.toNat ++ dest.drop (encFixed64 v.toNat).length := by
+  have h8 : (encFixed64 v.toNat).length = 8 := by simp [encFixed64]
+  rw [h8] at hd ⊢
+  unfold EncodeFixed64 EncodeFixed64.body
+  simp only [Go.seq, hd, if_true]
+  exact ⟨_, rfl, by simp [Go.putLE, leB_eq, encFixed64]⟩
+
+theorem EncodeFixed64_short (fuel : Nat) (dest : Bytes) (v : BitVec 64) (hd : dest.length < (encFixed64 v.toNat).length) :
+    EncodeFixed64 fuel dest v = .panic := by
+  have h8 : (encFixed64 v.toNat).length = 8 := by simp [encFixed64]
+  rw [h8] at hd
+  have : ¬ 8 ≤ dest.length := by omega
+  unfold EncodeFixed64 EncodeFixed64.body
+  simp [Go.seq, this]
+
+/-- **`(*Encoder).EncodeFixed32` of the source refines `Enc.step (.fixed32 tag v)` (key with wire type 5, then the 4 little-endian bytes)** -/
+theorem EncodeFixed32_refines (fuel : Nat) (hf : 10 ≤ fuel) (p : Bytes) (off tag : BitVec 64) (v : BitVec 32)
+    (hp : p.length < 2 ^ 63) (hoff : off.toNat ≤ p.length) :
+    match ({ buf := p, off := off.toNat } : Enc).step (.fixed32 tag.toNat v.toNat) with
+    | .ok e' => ∃ s, Encoder_EncodeFixed32 fuel p off tag v = .ret () s ∧ s.e_p = e'.buf ∧ s.e_offset.toNat = e'.off
+    | .panic => Encoder_EncodeFixed32 fuel p off tag v = .panic
+    | .err _ => False := by
+  have hwt : wtFixed32 = (5#64).toNat := rfl
+  obtain ⟨s1ok, s1bad⟩ := stage (EncodeTag fuel (p.drop off.toNat) tag 5#64) (·.dest) p off (encTag tag.toNat wtFixed32) hp hoff
+    (fun h => by rw [hwt] at h ⊢; exact EncodeTag_ok fuel _ tag 5#64 hf h)
+    (fun h => by rw [hwt] at h; exact EncodeTag_short fuel _ tag 5#64 hf h)
+  unfold Encoder_EncodeFixed32 Encoder_EncodeFixed32.body
+  simp only [Go.seq, hoff, if_true, Enc.step, EncOp.wire]
+  by_cases h1 : off.toNat + (encTag tag.toNat wtFixed32).length ≤ p.length
+  · obtain ⟨c1, hc1, hw1, ha1⟩ := s1ok h1
+    have hlen1 : (writeAt p off.toNat (encTag tag.toNat wtFixed32)).length = p.length := writeAt_length h1
+    obtain ⟨s2ok, s2bad⟩ := stage (EncodeFixed32 fuel ((writeAt p off.toNat (encTag tag.toNat wtFixed32)).drop (off + BitVec.ofNat 64 (encTag tag.toNat wtFixed32).length).toNat) v)
+      (·.dest) (writeAt p off.toNat (encTag tag.toNat wtFixed32)) (off + BitVec.ofNat 64 (encTag tag.toNat wtFixed32).length) (encFixed32 v.toNat)
+      (by rw [hlen1]; exact hp) (by rw [hlen1, ha1]; exact h1)
+      (fun h => EncodeFixed32_ok fuel _ v h) (fun h => EncodeFixed32_short fuel _ v h)
+    simp only [hc1, hw1, hlen1, ha1, h1, if_true]
+    by_cases h2 : off.toNat + (encTag tag.toNat wtFixed32).length + (encFixed32 v.toNat).length ≤ p.length
+    · obtain ⟨c2, hc2, hw2, ha2⟩ := s2ok (by rw [ha1, hlen1]; exact h2)
+      have hst : ({ buf := p, off := off.toNat } : Enc).store (encTag tag.toNat wtFixed32 ++ encFixed32 v.toNat) =
+          .ok { buf := writeAt p off.toNat (encTag tag.toNat wtFixed32 ++ encFixed32 v.toNat), off := off.toNat + (encTag tag.toNat wtFixed32 ++ encFixed32 v.toNat).length } :=
+        store_ok p _ _ (by simp; omega)
+      rw [ha1] at hc2 hw2 ha2
+      simp only [hst, EncOut.ofRes, hc2, hw2, ha1]
+      refine ⟨_, rfl, ?_, ?_⟩
+      · exact writeAt_writeAt p off.toNat _ _ h2
+      · simp [ha2]; omega
+    · have hst : ({ buf := p, off := off.toNat } : Enc).store (encTag tag.toNat wtFixed32 ++ encFixed32 v.toNat) = .panic :=
+        store_panic p _ _ (by simp; omega)
+      simp only [hst, EncOut.ofRes]
+      have hb := s2bad (by rw [ha1, hlen1]; exact h2)
+      rw [ha1] at hb
+      rw [hb]
+  · have hst : ({ buf := p, off := off.toNat } : Enc).store (encTag tag.toNat wtFixed32 ++ encFixed32 v.toNat) = .panic :=
+      store_panic p _ _ (by simp; omega)
+    simp only [hst, EncOut.ofRes, s1bad h1]
+
+
+/-- **`(*Encoder).EncodeFixed64` of the source refines `Enc.step (.fixed64 tag v)` (key with wire type 1, then the 8 little-endian bytes)** -/
+theorem EncodeFixed64_refines (fuel : Nat) (hf : 10 ≤ fuel) (p : Bytes) (off tag : BitVec 64) (v : BitVec 64)
+    (hp : p.length < 2 ^ 63) (hoff : off.toNat ≤ p.length) :
+    match ({ buf := p, off := off.toNat } : Enc).step (.fixed64 tag.toNat v.toNat) with
+    | .ok e' => ∃ s, Encoder_EncodeFixed64 fuel p off tag v = .ret () s ∧ s.e_p = e'.buf ∧ s.e_offset.toNat = e'.off
+    | .panic => Encoder_EncodeFixed64 fuel p off tag v = .panic
+    | .err _ => False := by
+  have hwt : wtFixed64 = (1#64).toNat := rfl
+  obtain ⟨s1ok, s1bad⟩ := stage (EncodeTag fuel (p.drop off.toNat) tag 1#64) (·.dest) p off (encTag tag.toNat wtFixed64) hp hoff
+    (fun h => by rw [hwt] at h ⊢; exact EncodeTag_ok fuel _ tag 1#64 hf h)
+    (fun h => by rw [hwt] at h; exact EncodeTag_short fuel _ tag 1#64 hf h)
+  unfold Encoder_EncodeFixed64 Encoder_EncodeFixed64.body
+  simp only [Go.seq, hoff, if_true, Enc.step, EncOp.wire]
+  by_cases h1 : off.toNat + (encTag tag.toNat wtFixed64).length ≤ p.length
+  · obtain ⟨c1, hc1, hw1, ha1⟩ := s1ok h1
+    have hlen1 : (writeAt p off.toNat (encTag tag.toNat wtFixed64)).length = p.length := writeAt_length h1
+    obtain ⟨s2ok, s2bad⟩ := stage (EncodeFixed64 fuel ((writeAt p off.toNat (encTag tag.toNat wtFixed64)).drop (off + BitVec.ofNat 64 (encTag tag.toNat wtFixed64).length).toNat) v)
+      (·.dest) (writeAt p off.toNat (encTag tag.toNat wtFixed64)) (off + BitVec.ofNat 64 (encTag tag.toNat wtFixed64).length) (encFixed64 v.toNat)
+      (by rw [hlen1]; exact hp) (by rw [hlen1, ha1]; exact h1)
+      (fun h => EncodeFixed64_ok fuel _ v h) (fun h => EncodeFixed64_short fuel _ v h)
+    simp only [hc1, hw1, hlen1, ha1, h1, if_true]
+    by_cases h2 : off.toNat + (encTag tag.toNat wtFixed64).length + (encFixed64 v.toNat).length ≤ p.length
+    · obtain ⟨c2, hc2, hw2, ha2⟩ := s2ok (by rw [ha1, hlen1]; exact h2)
+      have hst : ({ buf := p, off := off.toNat } : Enc).store (encTag tag.toNat wtFixed64 ++ encFixed64 v.toNat) =
+          .ok { buf := writeAt p off.toNat (encTag tag.toNat wtFixed64 ++ encFixed64 v.toNat), off := off.toNat + (encTag tag.toNat wtFixed64 ++ encFixed64 v.toNat).length } :=
+        store_ok p _ _ (by simp; omega)
+      rw [ha1] at hc2 hw2 ha2
+      simp only [hst, EncOut.ofRes, hc2, hw2, ha1]
+      refine ⟨_, rfl, ?_, ?_⟩
+      · exact writeAt_writeAt p off.toNat _ _ h2
+      · simp [ha2]; omega
+    · have hst : ({ buf := p, off := off.toNat } : Enc).store (encTag tag.toNat wtFixed64 ++ encFixed64 v.toNat) = .panic :=
+        store_panic p _ _ (by simp; omega)
+      simp only [hst, EncOut.ofRes]
+      have hb := s2bad (by rw [ha1, hlen1]; exact h2)
+      rw [ha1] at hb
+      rw [hb]
+  · have hst : ({ buf := p, off := off.toNat } : Enc).store (encTag tag.toNat wtFixed64 ++ encFixed64 v.toNat) = .panic :=
+      store_panic p _ _ (by simp; omega)
+    simp only [hst, EncOut.ofRes, s1bad h1]
+
 
 end Csproto.Bridge.EncoderFuncs
